@@ -65,6 +65,61 @@ example :
     let q : Query := { seqid := some "s1", name := some "a", start := some 9, stop := some 12, allowPartial := true }
     getMatching db q = [r1] ∧ WindowOk q ∧ ∀ r ∈ db.records, r.start < r.stop := by decide
 
+/-! ### (audit) the same without the side conditions, for every window mode except "both bounds
+and `allow_partial=True`": zero-length rows and reversed / empty windows included -/
+
+/-- `query_is_filter` needs neither `start < stop` on the rows nor a proper window unless both
+bounds are given together with `allow_partial=True`. -/
+theorem query_is_filter_nonpartial (db : Db) (q : Query)
+    (h : q.allowPartial = false ∨ q.start = none ∨ q.stop = none) :
+    getMatching db q = linearScan db.records q := by
+  unfold getMatching Db.records
+  show _ = List.filter _ _
+  rw [filter_flatMap]
+  simp only [selectTable_nonpartial clauses_ok _ q h]
+  rfl
+
+-- a zero-length row, a reversed window: outside `query_is_filter`, inside this one
+example :
+    let z := mkUserRec "s1" "gene" "z" none none [(9, 9)]
+    let r := mkUserRec "s1" "gene" "r" none none [(3, 7)]
+    let db : Db := { kind := .basic, tables := [("user", [z, r])] }
+    let q : Query := { seqid := some "s1", start := some 4, stop := some 9 }
+    let q' : Query := { start := some 9, stop := some 4 }
+    getMatching db q = [z] ∧ getMatching db q' = [] ∧ ¬ (∀ r ∈ db.records, r.start < r.stop) ∧ ¬ WindowOk q' := by decide
+
+/-- `num_matches(seqid, biotype, name, strand)` is the length of the linear scan.  `_partial`: without
+`attributes` — `num_matches` does not go through `_get_records_matching`, so its `attributes` value is
+compared with `=` instead of the `%…%` substring search of the two query methods (counterexample below,
+replayed on the real class by the harness: open finding C17-num-matches-attributes-exact). -/
+theorem num_matches_is_scan_count_partial (db : Db) (q : Query) (h : q.attributes = none) :
+    numMatches db q = (linearScan db.records { q with start := none, stop := none }).length := by
+  unfold numMatches linearScan Db.records
+  rw [filter_flatMap]
+  congr 2
+  funext t
+  apply List.filter_congr
+  intro r _
+  unfold countMatches countConds specMatch windowMatch
+  have hn : optMatch none r.attrs = true := rfl
+  simp only [List.all_append, optCond_spec, h, Option.map_none, hn, Bool.and_true]
+  rw [Bool.and_comm (optMatch q.seqid r.seqid)]
+
+example :
+    let r1 := mkUserRec "s1" "gene" "a" (some "-") none [(2, 5)]
+    let r2 := mkUserRec "s2" "gene" "a" none none [(12, 15)]
+    let db : Db := { kind := .gff, tables := [("gff", [r2, r1]), ("user", [r1])] }
+    numMatches db { seqid := some "s1", name := some "a" } = 2 ∧ numMatches db {} = 3 := by decide
+
+/- FULL STATEMENT (not proved, false): the same for every `q`, with `attributes` the substring search. -/
+theorem num_matches_attributes_counter :
+    let r1 := mkUserRec "s1" "gene" "a" none (some "k=zq;") [(2, 5)]
+    let r2 := mkUserRec "s1" "gene" "b" none (some "zq") [(7, 9)]
+    let db : Db := { kind := .basic, tables := [("user", [r1, r2])] }
+    let q : Query := { attributes := some "zq" }
+    numMatches db q = 1 ∧ (getMatching db q).length = 2 := by
+  decide +kernel
+
 /-- `add_feature` stores spans that denote the same set of positions as the spans given
 (whatever their order / orientation). -/
 theorem add_feature_positions (seqid biotype name : String) (strand attrs : Option String)
@@ -113,6 +168,17 @@ theorem update_perm (self other : Db) (seqids : Option CondVal) (d : Db)
     d.WF ∧ d.kind = self.kind ∧ d.records.Perm (self.records ++ other.records.filter (seqidCond seqids)) :=
   AnnotDb.update_perm self other seqids d hs ho h
 
+-- (audit) `update` with a `seqids` selection, gff <- basic; and the refused direction basic <- gff
+example :
+    let r1 := mkUserRec "s1" "gene" "a" (some "-") none [(2, 5)]
+    let r2 := mkUserRec "s2" "cds" "b" none none [(12, 15)]
+    let a : Db := { kind := .gff, tables := [("gff", [r2]), ("user", [r1])] }
+    let b : Db := { kind := .basic, tables := [("user", [r2, r1, r2])] }
+    a.WF ∧ b.WF ∧
+    (match update a b (some (.many ["s2", "s3"])) with | .ok d => d.records == [r2, r1, r2, r2] | .error _ => false) = true ∧
+    (match update b a none with | .ok _ => false | .error e => e == .typeError) = true := by
+  decide
+
 /-- `union` preserves the multiset of records of both operands (whenever it succeeds). -/
 theorem union_perm (self other d : Db) (hs : self.WF) (ho : other.WF) (h : union self other = .ok d) :
     d.WF ∧ d.records.Perm (self.records ++ other.records) :=
@@ -138,6 +204,28 @@ example :
     let db : Db := { kind := .basic, tables := [("user", [r1, r2])] }
     let q : Query := { start := some 0, stop := some 11 }
     (match subset db q with | .ok d => d.records == [r1] | .error _ => false) = true := by
+  decide
+
+/-- (audit) … and without side conditions outside the "both bounds + `allow_partial`" mode. -/
+theorem subset_filter_nonpartial (db : Db) (q : Query)
+    (h : q.allowPartial = false ∨ q.start = none ∨ q.stop = none) :
+    ∃ d, subset db q = .ok d ∧ d.kind = db.kind ∧ d.records = linearScan db.records q := by
+  unfold subset
+  split
+  · rename_i hl
+    refine ⟨_, rfl, rfl, ?_⟩
+    rw [empty_records, records_nil_of_len hl]; rfl
+  · refine ⟨_, rfl, rfl, ?_⟩
+    unfold Db.records linearScan
+    rw [filter_flatMap]
+    simp only [List.flatMap_map, selectTable_nonpartial clauses_ok _ q h]
+    rfl
+
+example :
+    let z := mkUserRec "s1" "gene" "z" none none [(9, 9)]
+    let r := mkUserRec "s1" "gene" "r" none none [(3, 7)]
+    let db : Db := { kind := .genbank, tables := [("gb", [r]), ("user", [z, r])] }
+    (match subset db { stop := some 5 } with | .ok d => d.records == [r, r] | .error _ => false) = true := by
   decide
 
 /-- Loading a GFF file in one block gives one record per ID (rows merged), nothing else. -/
@@ -181,6 +269,44 @@ example :
       [(some "c1", [(2, 4), (7, 10)], 2, 10), (some "unknown-0", [(2, 4)], 2, 4),
        (some "unknown-1", [(7, 9)], 7, 9), (some "unknown-2", [(0, 2)], 0, 2)] := by
   decide
+
+/-- (audit) "one record per ID", which `gff_load_one_block` only restates as a definition: whatever the
+blocking, no two stored records share a name … -/
+theorem gff_load_names_nodup (blocks : List (List GffRow))
+    (hnd : ∀ x ∈ (mergeRows blocks.flatten 0 []).1, x.spans.Nodup) :
+    ((loadGffBlocks blocks).map (·.name)).Nodup := by
+  rw [gff_load_block_independent blocks hnd, gff_load_one_block, mergeRows_eq, List.map_map]
+  have h := nodup_names_combine (singles blocks.flatten 0).1 [] names_nil_nodup
+  unfold names at h
+  have hf : ((fun r : Rec => r.name) ∘ gffRec) = (fun m : Merged => some m.name) := rfl
+  rw [hf]
+  simp only [List.Nodup, List.pairwise_map] at h ⊢
+  exact h.imp (fun hab hc => hab (Option.some.inj hc))
+
+/-- … and every `ID=` that occurs in the file is the name of a stored record (no ID is lost). -/
+theorem gff_load_every_id_stored (blocks : List (List GffRow))
+    (hnd : ∀ x ∈ (mergeRows blocks.flatten 0 []).1, x.spans.Nodup)
+    (row : GffRow) (i : String) (hrow : row ∈ blocks.flatten) (hi : row.id = some i) :
+    some i ∈ (loadGffBlocks blocks).map (·.name) := by
+  rw [gff_load_block_independent blocks hnd, gff_load_one_block, mergeRows_eq, List.map_map]
+  have hf : ((fun r : Rec => r.name) ∘ gffRec) = (fun m : Merged => some m.name) := rfl
+  rw [hf]
+  have hs : ∀ (rows : List GffRow) (n : Nat), row ∈ rows → i ∈ names (singles rows n).1 := by
+    intro rows
+    induction rows with
+    | nil => intro n h; cases h
+    | cons r rs ih =>
+      intro n h
+      unfold singles
+      rcases List.mem_cons.mp h with h | h
+      · subst h; simp [hi, names]
+      · cases hr : r.id <;> simp only [names, List.map_cons, List.mem_cons] <;> right <;> exact ih _ h
+  have := mem_names_combine_right (singles blocks.flatten 0).1 [] i (hs _ 0 hrow)
+  unfold names at this
+  obtain ⟨m, hm, rfl⟩ := List.mem_map.mp this
+  exact List.mem_map.mpr ⟨m, hm, rfl⟩
+
+-- (the three-block example above satisfies the hypothesis; its names are c1, unknown-0, unknown-1, unknown-2)
 
 /- The hypothesis is needed: when the *same row* of one ID occurs twice, reading both copies in one
    block keeps the span twice, while `_merge_spans` (`numpy.unique`, and the `old == new` shortcut)
